@@ -34,6 +34,30 @@ fn show_mat(m: &SmallMat) -> String {
     show_words(&vh::smallmat_words(m))
 }
 
+fn show_vec(v: &bitvec_simd::BitVec) -> String {
+    // hexadecimal integer, bit i = v[i] (as ops_gf2.rs)
+    let n = v.len();
+    let mut digits = Vec::with_capacity(n / 4 + 1);
+    let mut i = 0;
+    while i < n {
+        let mut d = 0u32;
+        for k in 0..4 {
+            if i + k < n && v.get_unchecked(i + k) {
+                d |= 1 << k;
+            }
+        }
+        digits.push(std::char::from_digit(d, 16).unwrap());
+        i += 4;
+    }
+    while digits.len() > 1 && *digits.last().unwrap() == '0' {
+        digits.pop();
+    }
+    if digits.is_empty() {
+        digits.push('0');
+    }
+    digits.iter().rev().collect()
+}
+
 fn sparse_of(ncols: usize, s: &str) -> Option<Vec<Vec<usize>>> {
     if ncols == 0 {
         return if s == "-" { Some(vec![]) } else { None };
@@ -123,7 +147,7 @@ pub fn handle(op: &str, a: &[&str]) -> Option<String> {
             }
         }
         ("lanczos", [nrows, ncols, data]) => {
-            // answer: `<Y0> <mask/W/Y|...|final Y>` (Y0 = the block returned by genblock), or `panic <Y0>`
+            // answer: `<Y0> <mask/W/Y|...|final Y>#<returned basis>` (Y0 = the block returned by genblock), or `panic <Y0>`
             let cols = sparse_of(ncols.parse().ok()?, data)?;
             let mat = SparseMat { k: nrows.parse().ok()?, cols };
             vs::genblock_start(0);
@@ -140,13 +164,18 @@ pub fn handle(op: &str, a: &[&str]) -> Option<String> {
             let iters = vs::lanczos_iters_take();
             let yfin = vh::take_y();
             match (r, yfin) {
-                (Ok(_), Some(yf)) => {
+                (Ok(ker), Some(yf)) => {
                     let mut parts: Vec<String> = iters
                         .iter()
                         .map(|(m, w, y)| format!("{:x}/{}/{}", m, show_words(w), show_words(y)))
                         .collect();
                     parts.push(show_words(&yf));
-                    Some(format!("{} {}", y0, parts.join("|")))
+                    let basis = if ker.is_empty() {
+                        "-".to_string()
+                    } else {
+                        ker.iter().map(show_vec).collect::<Vec<_>>().join(",")
+                    };
+                    Some(format!("{} {}#{}", y0, parts.join("|"), basis))
                 }
                 _ => Some(format!("panic {}", y0)),
             }
